@@ -4,6 +4,7 @@
 package simos
 
 import (
+	"fmt"
 	"errors"
 	"io"
 	"io/fs"
@@ -112,6 +113,9 @@ func SetForeignLive(pid int, alive bool) { extraLive[pid] = alive }
 
 // pre is the common prologue: sim point, dead-process suppression, crash point, fault decision.
 // It returns a non-nil error if the operation must not be performed.
+// SIM_FSLOG=1: debugging aid, prints every interposed file-system operation (never draws a choice)
+var fsLog = os.Getenv("SIM_FSLOG") != ""
+
 func pre(op, path, kind string, site string) error {
 	simrt.Yield(site)
 	s := simrt.S
@@ -127,6 +131,9 @@ func pre(op, path, kind string, site string) error {
 	}
 	pd := PD(p)
 	pd.Ops++
+	if fsLog {
+		fmt.Fprintf(os.Stderr, "FSLOG %s #%d %s %s @%s\n", p.Name, pd.Ops, op, path, site)
+	}
 	if Trace != nil {
 		TraceSite = site
 		Trace(p, op, path)
@@ -164,6 +171,9 @@ func injectNow(op, path, kind string) bool {
 		return false
 	}
 	pl.Budget--
+	if fsLog {
+		fmt.Fprintf(os.Stderr, "FSLOG   ^^ injected %s\n", kind)
+	}
 	simrt.Fault(kind)
 	if pl.Touched != nil {
 		pl.Touched(op, path, kind)
